@@ -431,14 +431,18 @@ def c12(ctx):
                   cases_latched_all_later_writes_fail=agg.n("cases_latched_all_later_writes_fail"),
                   cases_with_acked_writes_after_the_fault=agg.n("cases_fired_with_later_acked_writes"),
                   writes_ok=agg.n("writes_ok"), writes_failed=agg.n("writes_failed"),
-                  reads_checked=agg.n("reads_ok"), reads_returning_error_status=agg.n("reads_error_status"))
+                  reads_checked=agg.n("reads_ok"), reads_returning_error_status=agg.n("reads_error_status"),
+                  stuck_call_watcher="armed in every monitor process: a call that completes no step while the library "
+                                     "makes more than max(60000, 3x the reference run's total) intercepted calls, or while "
+                                     "every thread is blocked at 200 consecutive samples, is reported (sum of limits: %d)"
+                                     % agg.n("stuck_call_watcher_io_limit"))
     return runner.finish(
         "C12", "fault_enumeration", ctx.tier, ctx.seed, ctx.t0, agg,
         rule="reference run counts occurrences per (libc call class, file class); sites (call, file class, n-th occurrence: "
              "first 3, last 4, stride in between) x {one-shot, persistent} x errno {ENOSPC, EIO, EMFILE/ENOENT for opens} x "
              "{clean failure, short write}; the same workload runs with the rule armed (incl. a reopen under the fault); "
              "then the fault is cleared and both close+reopen and a kill image must hold every batch that returned OK, "
-             "whole batches only; non-trivial = rule fired; distinct = (call, file class, phase, mode, surfaced?) tuples",
+             "whole batches only; no crash, no call that fails to return (logical stuck-call watcher); non-trivial = rule fired; distinct = (call, file class, phase, mode, surfaced?) tuples",
         evaluations=agg.n("cases"), distinct_nontrivial=agg.d("c12_site"), extras=extras,
         floors=dict(cases_fired=(agg.n("cases_fired"), 500), later_acked=(agg.n("cases_fired_with_later_acked_writes"), 100),
                     distinct_sites=(agg.d("c12_site"), 40)),
